@@ -184,7 +184,16 @@ def run(tier, seed):
                     ph0[-1] = ph0[0]
                 if rng.random() < 0.3:
                     ph0[0] = ph0[-1] = 0.0
-            ctx.count("complex-style:" + style)
+            if rng.random() < 0.3:
+                # special VALUES of the corner at the end points: the outer phase closes the total to pi, 0 or +-pi/2, so that
+                # P(1) = e^{i total} is exactly -1, 1 or +-i (generic draws never produce these)
+                total = float(rng.choice([math.pi, math.pi, -math.pi, 0.0, math.pi / 2, -math.pi / 2]))
+                idx = -1 if rng.random() < 0.5 else 0
+                ph0[idx] = 0.0
+                ph0[idx] = math.remainder(total - float(sum(ph0)), 2 * math.pi)
+                style += "+total=%.2f" % total
+                ctx.count("complex-total-phase:%.2f" % total)
+            ctx.count("complex-style:" + style.split("+total")[0])
             ph0 = [float(x) for x in ph0]
             if d in EXACT_CORNERS and EXACT_CORNERS[d] and rng.random() < 0.5:
                 # corners whose coefficient vector is known in closed form and handed over with its exact zeros: e^{ia} x^d
